@@ -76,6 +76,7 @@ struct Config
     int sector = 4096;
     uint32_t checks = CK_ALL;
     bool table_api = false;  // 2.x: open through v2::engine_library so that actor T shares the connection
+    bool twice = false;      // execute the plan twice over differently poisoned heap/stack: stored bytes must not depend on indeterminate memory
     std::string profile;
     GenFlags gf;
     Json to_json() const;
